@@ -122,9 +122,13 @@ def run_seeded(ctx, only=None):
         t0 = time.time()
         rc, out = check_patch(ctx, os.path.join(sdir, d, "patch.diff"), meta["property"], None, None, "quick")
         what = [ln for ln in out.split("\n") if ln.startswith("violation:")]
-        status = "caught" if rc == 1 else "MISSED (exit %d)" % rc
+        expect_silent = meta.get("expect") == "silent"
+        if expect_silent:
+            status = "silent" if rc == 0 else "FALSE-ALARM (exit %d)" % rc
+        else:
+            status = "caught" if rc == 1 else "MISSED (exit %d)" % rc
         log("%-45s %s %-16s %5.0fs  %s" % (d, meta["property"], status, time.time() - t0, what[0][:140] if what else ""))
-        if rc != 1:
+        if (rc != 0) if expect_silent else (rc != 1):
             ok_all = False
             log(out[-1200:])
         results.append((d, status))
